@@ -337,6 +337,11 @@ func (o *Obligation) Query(forCvc5 bool) string {
 		body.WriteString("(assert (not ")
 		body.WriteString(Implies(o.Guard, o.Goal).S)
 		body.WriteString("))\n")
+	} else if o.Guard.S != "" && o.Guard.S != "true" {
+		// cover: the program point is reachable under everything assumed so far
+		body.WriteString("(assert ")
+		body.WriteString(o.Guard.S)
+		body.WriteString(")\n")
 	}
 	text := body.String()
 	for _, inst := range lemmaInstances(text, o.level()) {
